@@ -166,10 +166,54 @@ func (h *NtfnsHandler) Start() error {
 		}
 	}
 
+	// Queue the background tasks that were persisted before the goroutines start: the
+	// API and the worker use the queue as soon as Start has returned, and a failed read
+	// must fail the start instead of leaving the worker without a queue.
+	if err = h.loadTasks(); err != nil {
+		logging.CPrint(logging.ERROR, "NtfnsHandler.Start(): failed to load wallet tasks", logging.LogFormat{"err": err})
+		return err
+	}
+
 	h.quitWg.Add(2)
 	go handle(h)
 	go worker(h)
 	return nil
+}
+
+// loadTasks creates the task queue and re-queues the imports and removals that were
+// in progress when the wallet stopped.
+func (h *NtfnsHandler) loadTasks() error {
+	return mwdb.View(h.walletMgr.db, func(tx mwdb.ReadTransaction) error {
+		wss, err := h.walletMgr.syncStore.GetAllWalletStatus(tx)
+		if err != nil {
+			return err
+		}
+		taskChan := NewWalletTaskChan(len(wss))
+		for _, ws := range wss {
+			logging.CPrint(logging.DEBUG, "wallet status",
+				logging.LogFormat{
+					"syncedheight": ws.SyncedHeight,
+					"walletId":     ws.WalletID,
+					"ready":        ws.Ready(),
+					"removed":      ws.IsRemoved(),
+					"best":         h.bestBlock.Height,
+				})
+			// remove
+			if ws.IsRemoved() {
+				taskChan.PushRemove(ws.WalletID)
+				logging.CPrint(logging.INFO, "restart removing", logging.LogFormat{"walletId": ws.WalletID})
+				continue
+			}
+
+			// import
+			if !ws.Ready() {
+				taskChan.PushImport(ws.WalletID)
+				logging.CPrint(logging.INFO, "restart importing", logging.LogFormat{"walletId": ws.WalletID})
+			}
+		}
+		h.taskChan = taskChan
+		return nil
+	})
 }
 
 func (h *NtfnsHandler) Stop() {
@@ -778,37 +822,6 @@ func (h *NtfnsHandler) reorg(dbtx mwdb.DBTransaction, currentBest txmgr.BlockMet
 func worker(h *NtfnsHandler) {
 	defer Recover()
 	defer h.quitWg.Done()
-
-	mwdb.View(h.walletMgr.db, func(tx mwdb.ReadTransaction) error {
-		wss, err := h.walletMgr.syncStore.GetAllWalletStatus(tx)
-		if err != nil {
-			return err
-		}
-		h.taskChan = NewWalletTaskChan(len(wss))
-		for _, ws := range wss {
-			logging.CPrint(logging.DEBUG, "wallet status",
-				logging.LogFormat{
-					"syncedheight": ws.SyncedHeight,
-					"walletId":     ws.WalletID,
-					"ready":        ws.Ready(),
-					"removed":      ws.IsRemoved(),
-					"best":         h.bestBlock.Height,
-				})
-			// remove
-			if ws.IsRemoved() {
-				h.taskChan.PushRemove(ws.WalletID)
-				logging.CPrint(logging.INFO, "restart removing", logging.LogFormat{"walletId": ws.WalletID})
-				continue
-			}
-
-			// import
-			if !ws.Ready() {
-				h.taskChan.PushImport(ws.WalletID)
-				logging.CPrint(logging.INFO, "restart importing", logging.LogFormat{"walletId": ws.WalletID})
-			}
-		}
-		return nil
-	})
 
 	for {
 		verifGate(h, "worker.top")
